@@ -34,6 +34,9 @@ CHECKS = {
  'C03': dict(technique='TLC evaluation of format conformance (SgzFormat!Conformant conjuncts, SgzVersion gates) on every writer output and writer chain + TLC/Apalache model checking of the version encoding',
              text='Every output of every writer (NumPy, SEG-Y in 4 detection modes, 2-D, irregular, ZGY/VDS fixtures, cropper, re-blocker) and of chains up to length 3 is parsed at the byte positions the specification gives and each conformance conjunct (dimensions, axes, rate, blockshape, block count, entry bytes, stride and offsets under the RECORDED version, trace count, table vs stored arrays, file length) is decided by TLC against the truth taken from the source and settings; the file is then decoded unit by unit and array by array from TLC offsets. The version encoding is model checked exhaustively at reduced radices (TLC), proved at the real radices for all pairs (Apalache, thorough) and enumerated on the real class (boundary set quick, all 8.4 million thorough) together with the setuptools_scm string grammar.',
              note='unused header regions are not inspected; cropper/re-blocker keep the source version and are judged under its conventions', ref='7/C03'),
+ 'C04': dict(technique='TLC model checking of the header-word table / footer protocol (MC_Headers over SgzHeaders: writer classification, thorough re-classification and in-place patch, reader template and mask) + replay of TLC-enumerated matrices embedded in real SEG-Y files, with the model evaluated by TLC on every real 89 x n matrix',
+             text='MC_Headers checks every source matrix over 3 (quick) / 4 (thorough) fields x 3 traces x a value set, every detection mode, the NumPy route with every subset of given fields, regular / 2-D and irregular one-hole grids: the file the modelled writer produces reads back exactly (thorough, exhaustive, NumPy), exactly under the property\'s precondition (heuristic), zero (strip), the table names exactly the stored arrays in the order written; four design mutants are each rejected. The TLC-enumerated matrices, stratified by field class, are embedded into real SEG-Y files (8 field embeddings, 2-/4-byte extremes, backgrounds populating all 89 words, trace counts around the 512-byte stride, regular / irregular / 2-D), converted in every mode and read back through gen_trace_header, load_all_headers, the emulator header accessor, get_tracefield_values, variant_headers, bin, text and the raw 3600 bytes, against segyio on the source. TLC also runs the model on the real matrix of each case: table, array order and count must match the written file (conformance), and its precondition verdict decides what the default detection owes.',
+             note='values fit the field width; irregular sources inline sorted; model/code table mismatch is reported as model drift, not as a violation', ref='7/C04'),
  'C19': dict(technique='TLC model checking of the setting resolution/validation (SgzConfig!Resolve vs Valid) on the complete grid + conformance of the real function with the model + real conversions',
              text='TLC checks on the complete grid of the property (bits as number/string/negative reciprocal/non-powers of two x blockshape entries in {-1,1..8192}^3, 2-D and 3-D; 2 million states) that the resolution as the code does it accepts only valid combinations, keeps what was given, and accepts every valid combination fully given or with any one parameter free; the real define_blockshape_2d/3d are compared with the model point by point (TLC oracle) and accepted / near-miss points are converted for real on a tiny input: rejected => no output left, accepted => bitwise faithful read-back.',
              note='2-D rates below 1 cannot be faithful and need not be accepted', ref='7/C19'),
